@@ -450,6 +450,19 @@ func genC08(rng *hx.Rng, tier string, w *hx.Writer) error {
 				p.sid = sidDesc{dealer: dl.dealer, members: members, commits: c2, t: bt}
 			}, "no-approve", "threshold-out-of-range-consistent-deal")
 		}
+		// a polynomial whose commitments make the recipient's public-share evaluation add a point to itself
+		// (constant term = sum_{k>=1} c_k x^k at the recipient's abscissa): the true share is approved,
+		// the share 0 - what a lost doubling would verify - is not
+		mk(func(p *plainDesc) {
+			c2 := craftFor(randCoeffs(rng, t, BnQ), p.idx, BnQ)
+			p.commits, p.share = c2, refEval(c2, p.idx, BnQ)
+			p.sid = sidDesc{dealer: dl.dealer, members: members, commits: c2, t: t}
+		}, "approve", "crafted-polynomial-true-share")
+		mk(func(p *plainDesc) {
+			c2 := craftFor(randCoeffs(rng, t, BnQ), p.idx, BnQ)
+			p.commits, p.share = c2, big.NewInt(0)
+			p.sid = sidDesc{dealer: dl.dealer, members: members, commits: c2, t: t}
+		}, "no-approve", "crafted-polynomial-zero-share")
 		mk(func(p *plainDesc) { p.idx = (r + 1) % n; p.share = refEval(dl.coeffs, p.idx, BnQ) }, "reject", "index-of-other-member")
 		mk(func(p *plainDesc) { p.idx = n + 3 }, "reject", "index-out-of-range")
 		mk(func(p *plainDesc) {
